@@ -61,7 +61,13 @@ func loadAndCheck(raw []byte, m DebModel, members []ArMember, viaFile bool, inde
 		case 2:
 			io.Copy(io.Discard, br)
 		}
-		d, err = deb.Load(br, pathname)
+		var src io.ReaderAt = br
+		if len(raw)%4 == 3 {
+			// the package as a window of something larger (a .deb inside an image, say)
+			big := append(append([]byte("FRONT-JUNK-"), raw...), raw...)
+			src = io.NewSectionReader(bytes.NewReader(big), int64(len("FRONT-JUNK-")), int64(len(raw)))
+		}
+		d, err = deb.Load(src, pathname)
 		if err == nil {
 			defer d.Close()
 		}
